@@ -9,7 +9,8 @@ PROP = {'n_quick': 260,
          '(thorough) or one position per class and transaction (quick); (ii) `explicit`: all-explicit transactions, balanced / unbalanced in an input or '
          'output / asset changed / zero amount on OP_RETURN, on the fee, on a short spendable script, on scripts of exactly 10_000 (spendable) and 10_001 bytes (over MAX_SCRIPT_SIZE) / wrong number of spent outputs, plus explicit '
          'transactions over confidential spent outputs; distinct = (transaction, tamper) text; non-trivial = the tamper changed the transaction (all do)',
- 'trusted': ['IDEAL-COMMITMENT MODEL as for C04 (partial w.r.t. cryptography): formal commitments over independent generators; ideal range/surjection proofs '
+ 'trusted': ['issuance asset / token ids in the case text are derived by the harness from the protocol formulas (entropy, H(E||0), H(E||1|2) with the flag from the AMOUNT), independently of TxIn::issuance_ids(); issuances range over {null, explicit, confidential}^2 for (amount, inflation keys)',
+             'IDEAL-COMMITMENT MODEL as for C04 (partial w.r.t. cryptography): formal commitments over independent generators; ideal range/surjection proofs '
              'whose soundness and binding are built in (a proof verifies iff intact, presented with exactly its statement, with a correct witness)',
              "a tamper is applied by the harness to the real transaction and, symbolically, by the model (Model/Tamper.v `apply`) to its opened form; "
              '`corrupt` = one flipped byte that still parses (real) / the intact flag cleared (model)',
